@@ -185,7 +185,7 @@ def make_cases(tier, count=False, fragment=None):
                     continue
                 seen.add(name)
                 cs.append(Case(name + "|N<=%d" % N, harness(cond, sel, N, veq, count), key=name, reset=eql_reset, timeout=150 if tier == "quick" else 600,
-                               max_paths=30000 if tier == "quick" else 200000, core=core, validate=1, meta=dict(N=N)))
+                               max_paths=30000 if tier == "quick" else 200000, core=core, validate=1, meta=dict(N=N), cex_grace=10**9))
     if not count:
         for sel in [("entity", ("x",)), ("set_of", ("x", "y")), ("set_of", ("x", "x.kid"))]:
             name = "%s(%s|true)" % (sel[0], ",".join(sel[1]))
